@@ -8,7 +8,7 @@
 //! For each type T of a fixed list (Scrypto flavour: `scrypto_encode/decode`; manifest flavour:
 //! `manifest_encode/decode`, validated against the Scrypto schema through `ManifestCustomExtension`):
 //!  * S_T = `generate_full_schema_from_single_type::<T, ScryptoCustomSchema>()`;
-//!  * P = `schema_directed(S_T)` (see schemagen.rs) at the smallest depth >= 4 at which the type bottoms out, +1;
+//!  * P = `schema_directed(S_T)` (see schemagen.rs) at the smallest depth >= 4 at which the type bottoms out, +1 (quick) / +3 (thorough);
 //!  * (1) for p in P: if the typed decoder accepts p with value v, then the payload validator must accept p,
 //!        `encode(v)` must validate and `decode(encode(v)) == v`;
 //!  * (2) for every single-point mutation m of (a prefix of) P over a 14-byte alphabet of structurally significant
@@ -41,6 +41,9 @@ pub const MUTATION_ALPHABET: [u8; 14] = [0x00, 0x01, 0x02, 0x07, 0x0c, 0x20, 0x2
 
 #[derive(Clone, Copy)]
 pub struct Budget {
+    /// how many levels beyond the first depth at which the type bottoms out
+    pub extra_depth: usize,
+    pub node_cap: usize,
     pub root_cap: usize,
     pub mutate_first: usize,
     pub mutate_max_len: usize,
@@ -164,12 +167,12 @@ fn check_type<T: Debug + PartialEq + ScryptoDescribe, C: Codec>(
     let mut values = vec![];
     let mut used_depth = 0;
     for depth in 4..=14 {
-        let b = Bound { depth, len_bound: 3, product_cap: 64, node_cap: 60, max_len: 70, root_cap: budget.root_cap };
+        let b = Bound { depth, len_bound: 3, product_cap: 64, node_cap: budget.node_cap, max_len: 70, root_cap: budget.root_cap };
         values = schema_directed::<C::F>(schema, id, &b);
         if !values.is_empty() {
-            let b2 = Bound { depth: depth + 1, ..b };
+            let b2 = Bound { depth: depth + budget.extra_depth, ..b };
             let deeper = schema_directed::<C::F>(schema, id, &b2);
-            used_depth = depth + 1;
+            used_depth = depth + budget.extra_depth;
             if !deeper.is_empty() {
                 values = deeper;
             }
@@ -302,14 +305,14 @@ pub fn run(ctx: Ctx) -> ! {
         let mut l = Local::new();
         for (name, job) in &jobs {
             if name == &format!("{fl}:{ty}") {
-                job(Budget { root_cap: 5000, mutate_first: 50, mutate_max_len: 300 }, &mut l);
+                job(Budget { extra_depth: 1, node_cap: 60, root_cap: 5000, mutate_first: 50, mutate_max_len: 300 }, &mut l);
             }
         }
         ctx.merge(l);
         MIN.flush(&ctx);
         ctx.finish(Level::Exploration, "replay", 0, false, Map::new(), &[]);
     }
-    let budget = ctx.pick(Budget { root_cap: 1500, mutate_first: 25, mutate_max_len: 200 }, Budget { root_cap: 20_000, mutate_first: 400, mutate_max_len: 400 });
+    let budget = ctx.pick(Budget { extra_depth: 1, node_cap: 60, root_cap: 1500, mutate_first: 25, mutate_max_len: 200 }, Budget { extra_depth: 3, node_cap: 80, root_cap: 20_000, mutate_first: 400, mutate_max_len: 400 });
     par_range(&ctx, jobs.len() as u64, 1, |i, l| {
         let (_name, job) = &jobs[i as usize];
         job(budget, l);
